@@ -32,6 +32,8 @@ BEHAVIOURS = [
          hyps=["Tridimensional"], extra="", wrapper="plain", tr=0, full=0, default="strict", runtime=0, init=0),
     dict(name="C39GLog", tpl="C39GTemplate", dsl="", sm="@StrainMeasure Hencky;", hyps=["Tridimensional", "PlaneStress"], extra="", wrapper="log", tr=15,
          full=1, default="none", runtime=1, init=0),
+    dict(name="C39GFS", tpl="C39GFS", dsl="", sm="", hyps=["Tridimensional", "PlaneStress"], extra="", wrapper="fs", tr=15, full=1, default="none",
+         runtime=1, init=0),
     dict(name="C39GGL", tpl="C39GTemplate", dsl="", sm="@StrainMeasure GreenLagrange;", hyps=["Tridimensional", "PlaneStress"], extra=INITFCT, wrapper="gl",
          tr=15, full=1, default="none", runtime=1, init=1),
     # the same without the initialize function: used when the one above does not compile (known finding)
@@ -103,7 +105,7 @@ def _probe(c, out, flags, b):
     return rc, e
 
 
-def build_and_run(c):
+def build_and_run(c, pid="C39"):
     """returns (lines, init_lines, init_compiles, behaviours, probe results) or None after having reported the failure.
     One pool of 4 jobs: objects of the generated sources (vlib's cache, keyed by the preprocessed text) and compile probes."""
     from concurrent.futures import ThreadPoolExecutor
@@ -114,7 +116,8 @@ def build_and_run(c):
     main_behs = [b for b in BEHAVIOURS if b["name"] != "C39GGLNoInit"]
     write_table(c, out, main_behs)
     jobs = [("obj", os.path.join(out, "src", "C39GGL-generic.cxx"))]
-    jobs += [("probe", b) for b in PROBES]
+    if pid == "C39":  # whether these programs compile is part of the calling convention (C39), not of C40
+        jobs += [("probe", b) for b in PROBES]
     for b in main_behs:
         jobs.append(("obj", os.path.join(out, "src", b["name"] + ".cxx")))
         if b["name"] != "C39GGL":
@@ -152,7 +155,7 @@ def build_and_run(c):
     init_compiles = not init_errors
     c.count(1, ("probe", "GreenLagrange+InitializeFunction"), True)
     behs = main_behs
-    if not init_compiles:
+    if not init_compiles and pid == "C39":
         e = sorted(init_errors.values())[0]
         m = re.search(r"\w+StrainIntegrate\.hxx:\d+:\d+: error: [^\n]{0,200}", e)
         c.report(KEY_INIT, "a behaviour with @StrainMeasure GreenLagrange and an @InitializeFunction, accepted by mfront, does not compile with "
@@ -160,6 +163,7 @@ def build_and_run(c):
                  "LogarithmicStrainIntegrate.hxx and StandardFiniteStrainBehaviourIntegrate.hxx) calls mfront::gb::executeInitializeFunction"
                  "<Behaviour, m>(initialize_variables, d, p) though it is declared (d, initialize_variables, p)%s" % (": " + m.group(0) if m else ""),
                  {"program": open(os.path.join(c.work, "gmfront", "C39GGL.mfront")).read(), "stderr": e[-3000:]}, True)
+    if not init_compiles:
         # the same program without the initialize function, so that the Green-Lagrange entry points are exercised anyway
         behs = [b for b in BEHAVIOURS if b["name"] != "C39GGL"]
         try:
@@ -217,6 +221,16 @@ def normalise(line, behs):
     ea = min(max(int(ap.group(2)), 100), 1000)
     ep = min(max(int(po.group(2)), 100), ea)
     ch = ch.replace(ap.group(0), "apriori=%s:%d" % (ap.group(1), ea)).replace(po.group(0), "apost=%s:%d" % (po.group(1), ep))
+    if m.group(1) == "fs" and m.group(3) == "PlaneStress":
+        # mfront provides no conversion of finite strain tangent operators in plane stress: the generated integrate() /
+        # computePredictionOperator() throw for any operator but the one the behaviour defines (DS_DEGL): an exception of that hook
+        K0, K2 = int(re.search(r"K0=(-?\d+)", a).group(1)), int(re.search(r"K2=(\d+)", a).group(1))
+        Ke = K0 - 100000 if K0 > 50000 else K0
+        if not (500 <= K2 < 1500) and K2 < 3500:
+            if Ke < -250:
+                ch = re.sub(r"pred=\d,", "pred=2,", ch)  # thrown before the user block runs
+            elif Ke > 500:
+                ch = ch.replace("integ=0,", "integ=2,")
     return a + "|" + ch + "|" + o, seq
 
 
@@ -313,7 +327,7 @@ def init_check(il):
 
 def stage(c, pid):
     """runs the stage; returns (normalised lines for the model driver, findings [(prop, key, what, line)], info dict) or None"""
-    r = build_and_run(c)
+    r = build_and_run(c, pid)
     if r is None:
         return None
     lines, ilines, init_compiles, behs, probe_results = r
